@@ -526,16 +526,22 @@ class Verdict:
     def finish(self):
         """Print KNOWN-FINDING / VIOLATION lines; return (exit code, n_new_violations)."""
         new = 0
+        grouped = {}
         for key, (n, path, what) in sorted(self.viol.items()):
             f = self.match_known(key)
             if f:
                 self.known_seen[key] = n
-                print("KNOWN-FINDING: property=%s %s [key=%s, seen %d times]" %
-                      (self.prop, f.get("what", what), key, n), flush=True)
+                g = grouped.setdefault(id(f), [f, 0, []])
+                g[1] += n
+                g[2].append(key)
             else:
                 new += 1
                 print("VIOLATION property=%s replay=%s" % (self.prop, path), flush=True)
                 print("  key=%s (x%d): %s" % (key, n, what), flush=True)
+        for f, n, keys in grouped.values():
+            # one line per listed finding, however many scenario classes reproduced it
+            print("KNOWN-FINDING: property=%s %s [seen %d times under %d violation keys, e.g. %s]" %
+                  (self.prop, f.get("what", ""), n, len(keys), keys[0]), flush=True)
         return (1 if new else 0), new
 
 
